@@ -5,6 +5,7 @@
 //!            array sizes / lattices / large arrays, every leaf content kind;
 //!  * `deep`  (thorough) the same with 4 levels;
 //!  * `label` one cell: shape kind x label position x same/other layer x second shape x second label;
+//!  * `grid`  one shape and one label at every point of the lattice of the shape's vertex coordinates;
 //!  * `mal`   malformed libraries (dangling / cyclic references, zero rows/cols, empty xy, ...): must be `Err`.
 //!
 //! Oracle: `refmodel::gdsflat` (exact integer GDSII flattener + exact label-to-net reference).
@@ -24,6 +25,7 @@ pub enum Part {
     Hier,
     Deep,
     Label,
+    Grid,
     Mal,
 }
 #[derive(Clone, Copy, Debug, PartialEq, Eq)]
@@ -51,7 +53,7 @@ const ORIENT_TAGS_S: [&str; 8] = ["sref:R0", "sref:R90", "sref:R180", "sref:R270
 const ORIENT_TAGS_A: [&str; 8] = ["aref:R0", "aref:R90", "aref:R180", "aref:R270", "aref:MX", "aref:MX-R90", "aref:MX-R180", "aref:MX-R270"];
 const LATTICE_TAGS: [&str; 5] = ["lattice:axis", "lattice:rotated-with-angle", "lattice:negative-pitch", "lattice:skew", "lattice:cols-along-y"];
 const BIG_TAGS: [&str; 5] = ["array:small", "array:181x181", "array:200x200", "array:1x32767", "array:32767x1"];
-const SPELL_TAGS: [&str; 3] = ["strans:minimal", "strans:explicit-angle", "strans:present-default"];
+const SPELL_TAGS: [&str; 5] = ["strans:minimal", "strans:explicit-angle", "strans:present-default", "strans:negative-angle", "strans:angle-over-360"];
 const LOCS: [(i32, i32); 4] = [(300, -200), (0, 0), (-7, 1000), (100000, -100000)];
 const POS_TAGS: [&str; 5] = ["label:inside", "label:on-edge", "label:on-vertex", "label:just-outside", "label:far-outside"];
 const LEVEL_NAMES: [&str; 4] = ["s0_top", "s1", "s2", "s3"];
@@ -188,10 +190,17 @@ fn gen_ref(c: &mut Chooser, target: &str, allow_big: bool, tags: &mut Vec<&'stat
     let o = c.free(8, "orientation");
     let (reflect, quarter) = (o >= 4, (o % 4) as u8);
     let ns = n_spellings(reflect, quarter);
-    let spell = if ns > 1 { c.cost(ns, "strans-spelling") } else { 0 };
-    tags.push(SPELL_TAGS[spell]);
+    // after the `ns` spellings of the angle within one turn: the same rotation written as a negative angle
+    // (90q - 360) and as an angle beyond one turn (90q + 360)
+    let spell = c.cost(ns + 2, "strans-spelling");
+    tags.push(if spell < ns { SPELL_TAGS[spell] } else { SPELL_TAGS[3 + spell - ns] });
     let loc = c.cost_of(&LOCS, "ref-loc");
-    let st = strans(reflect, quarter, spell);
+    let st = if spell < ns {
+        strans(reflect, quarter, spell)
+    } else {
+        let turn = if spell == ns { -360.0 } else { 360.0 };
+        Some(GdsStrans { reflected: reflect, angle: Some(90.0 * quarter as f64 + turn), ..Default::default() })
+    };
     if !is_aref {
         tags.push(ORIENT_TAGS_S[o]);
         return GdsStructRef { name: target.into(), xy: gp(loc), strans: st, ..Default::default() }.into();
@@ -348,6 +357,56 @@ impl C06 {
         let mut s = GdsStruct::new("cell");
         s.elems = elems;
         Case { gds: lib_of(vec![s], &[0]), intent: Intent::WellFormed, tags }
+    }
+
+    /// One shape and one same-layer label at every point of the lattice spanned by the shape's vertex
+    /// coordinates (each coordinate and its neighbours at -3..=3, the midpoints between consecutive ones):
+    /// on, next to and far from every edge and every *extended* edge line, inside and outside the bounding box.
+    fn gen_grid(&self, _t: Tier, c: &mut Chooser) -> Case {
+        let kind = c.free(7, "shape-kind");
+        let start_vertex = c.free(4, "start-vertex");
+        let reverse = c.free(2, "reverse-direction") == 1;
+        let e = shape_elem(kind, 7, 3, (0, 0));
+        let (verts, width): (Vec<(i64, i64)>, Option<i64>) = match &e {
+            GdsElement::GdsBoundary(b) => (b.xy.iter().map(|p| (p.x as i64, p.y as i64)).collect(), None),
+            GdsElement::GdsBox(b) => (b.xy.iter().map(|p| (p.x as i64, p.y as i64)).collect(), None),
+            GdsElement::GdsPath(p) => (p.xy.iter().map(|p| (p.x as i64, p.y as i64)).collect(), Some(p.width.unwrap_or(0) as i64)),
+            _ => panic!("MACHINERY: C06 grid: shape kind {kind}"),
+        };
+        let axis = |sel: fn(&(i64, i64)) -> i64| -> Vec<i64> {
+            let mut base: Vec<i64> = verts.iter().map(sel).collect();
+            base.sort();
+            base.dedup();
+            let mut v = vec![];
+            for (i, b) in base.iter().enumerate() {
+                for d in -3..=3 {
+                    v.push(b + d);
+                }
+                if i + 1 < base.len() {
+                    v.push((b + base[i + 1]) / 2);
+                }
+            }
+            v.sort();
+            v.dedup();
+            v
+        };
+        let (xs, ys) = (axis(|p| p.0), axis(|p| p.1));
+        let mut pts: Vec<(i64, i64)> = vec![];
+        for x in &xs {
+            for y in &ys {
+                // paths: only where the statement fixes membership
+                if let Some(w) = width {
+                    if gdsflat::path_region(&verts, w, (*x, *y)) == gdsflat::In::DontCare {
+                        continue;
+                    }
+                }
+                pts.push((*x, *y));
+            }
+        }
+        let at = pts[c.free(pts.len(), "lattice-point")];
+        let mut s = GdsStruct::new("cell");
+        s.elems = vec![respell(e, start_vertex, reverse), text(7, "Net1", (at.0 as i32, at.1 as i32))];
+        Case { gds: lib_of(vec![s], &[0]), intent: Intent::WellFormed, tags: vec![KIND_TAGS[kind], "grid:label"] }
     }
 
     fn gen_mal(&self, t: Tier, c: &mut Chooser) -> Case {
@@ -702,7 +761,7 @@ impl CaseDriver for C06 {
     fn describe(&self, tier: Tier) -> Describe {
         let rule = match self.part {
             Part::Hier => format!(
-                "GDS libraries of 1..3 levels (chain top -> ... -> leaf, optionally the top also placing the leaf), structs listed in every order; each reference SREF or AREF x all 8 Manhattan orientations (free); leaf content = one of {KINDS:?} or all seven together (free); costed (deviation bound {}): STRANS spelling (absent / explicit Some(0.0) / present-but-default), offsets {LOCS:?}, array cols x rows in {{1,2,3}}^2, lattice (axis-parallel, rotated with the angle, negative pitch, skewed, columns along y), large arrays 181x181 / 200x200 / 1x32767 / 32767x1 (two-level libraries only), a label inside the leaf shape. Non-trivial = has at least one reference.",
+                "GDS libraries of 1..3 levels (chain top -> ... -> leaf, optionally the top also placing the leaf), structs listed in every order; each reference SREF or AREF x all 8 Manhattan orientations (free); leaf content = one of {KINDS:?} or all seven together (free); costed (deviation bound {}): STRANS spelling (absent / explicit Some(0.0) / present-but-default / the same rotation as a negative angle 90q-360 / beyond one turn 90q+360), offsets {LOCS:?}, array cols x rows in {{1,2,3}}^2, lattice (axis-parallel, rotated with the angle, negative pitch, skewed, columns along y), large arrays 181x181 / 200x200 / 1x32767 / 32767x1 (two-level libraries only), a label inside the leaf shape. Non-trivial = has at least one reference.",
                 self.bound(tier)
             ),
             Part::Deep => "4-level chains, structs in every one of the 24 listing orders, every reference SREF or AREF x 8 orientations (free), leaf content CW rectangle or L-polygon; the costed alphabet of [hier] with deviation bound 1.".into(),
@@ -710,6 +769,7 @@ impl CaseDriver for C06 {
                 "one cell: shape kind (7) x label position {{inside, on an edge, on a vertex, just outside, far outside}} x vertex list started at each of 4 vertices x both directions (paths: drawn from either end) x label on the same / another layer x second shape {{none, same layer overlapping, other layer, same layer other datatype}} x second label {{none, same point listed before, same point listed after, inside with another string}} (all free); costed (bound {}): strings (mixed / upper / single-letter case pairs), element order (shapes first, labels first, interleaved), a diagonal path on the labels' layer. Non-trivial = every case (each has a label).",
                 self.bound(tier)
             ),
+            Part::Grid => "one cell holding one shape (each of the 7 kinds, vertex list started at each of 4 vertices, both directions) and one same-layer label at every point of the lattice spanned by the shape's vertex coordinates: every vertex x / y and its neighbours at -3..=3, plus the midpoints between consecutive ones - on, next to and away from every edge and every extended edge line, inside and outside the bounding box (paths: the points whose membership the statement fixes). All free (no deviation bound).".into(),
             Part::Mal => "malformed libraries: dangling SREF / AREF, self-reference by SREF / AREF, 2-cycle, 3-cycle (through an AREF), cols = 0, rows = 0, boundary with empty xy, path with empty xy (required outcome: Err), plus boundary not closed, path without width, SREF abs_mag, AREF abs_angle (Err expected and the only outcome judged); each as the whole library and below a well-formed top cell; every listing order (quick: cyclic libraries in every rotation).".into(),
         };
         Describe {
@@ -729,7 +789,7 @@ impl CaseDriver for C06 {
         match self.part {
             Part::Hier | Part::Label => t.pick(1, 2),
             Part::Deep => 1,
-            Part::Mal => 0,
+            Part::Mal | Part::Grid => 0,
         }
     }
     fn unit_target(&self, _t: Tier) -> usize {
@@ -744,6 +804,7 @@ impl CaseDriver for C06 {
             Part::Hier => self.gen_hier(t, c, false),
             Part::Deep => self.gen_hier(t, c, true),
             Part::Label => self.gen_label(t, c),
+            Part::Grid => self.gen_grid(t, c),
             Part::Mal => self.gen_mal(t, c),
         }
     }
@@ -910,6 +971,10 @@ impl CaseDriver for C06 {
                 require_tags(stats, &POS_TAGS)?;
                 require_tags(stats, &["label:other-layer", "label:same-layer", "shape2:same-layer-overlapping", "label2:same-point-listed-before", "label2:inside-other-string", "order:labels-first", "order:interleaved", "start:v1", "start:v2", "start:v3", "direction:reversed", "ref:label-names-a-net", "ref:label-becomes-annotation", KIND_TAGS[8]])?;
             }
+            Part::Grid => {
+                require_tags(stats, &KIND_TAGS[..7])?;
+                require_tags(stats, &["grid:label", "ref:label-names-a-net", "ref:label-becomes-annotation"])?;
+            }
             Part::Mal => {
                 require_tags(
                     stats,
@@ -934,7 +999,7 @@ pub fn driver() -> Box<dyn Driver> {
 /// `Multi` with a tier-dependent part list (the 4-level part only runs in the thorough tier).
 struct C06Multi;
 fn multi(tier: Tier) -> Multi {
-    let mut parts: Vec<(&'static str, Box<dyn Driver>)> = vec![("hier", Box::new(ByCase(C06 { part: Part::Hier }))), ("label", Box::new(ByCase(C06 { part: Part::Label }))), ("mal", Box::new(ByCase(C06 { part: Part::Mal })))];
+    let mut parts: Vec<(&'static str, Box<dyn Driver>)> = vec![("hier", Box::new(ByCase(C06 { part: Part::Hier }))), ("label", Box::new(ByCase(C06 { part: Part::Label }))), ("grid", Box::new(ByCase(C06 { part: Part::Grid }))), ("mal", Box::new(ByCase(C06 { part: Part::Mal })))];
     if tier.is_thorough() {
         parts.push(("deep", Box::new(ByCase(C06 { part: Part::Deep }))));
     }
